@@ -53,6 +53,7 @@ Section Counters.
     intros Hc. unfold Bdf.step, retry, hres. cbv zeta.
     destruct (N.leb _ _); [fin|].
     destruct (ltb O (s_h H s) _); [fin|].
+    match goal with |- out_counted (if ?c then _ else _) => destruct c; [fin|] end.   (* min_step bound already failed *)
     (* the three clamps only produce numbers *)
     destruct (if ltb O hmax (s_h H s) then _ else _) as [[[d1 h1] neq1] lucur1]. nxt.
     destruct (if ltb O h1 hmin && _ then _ else _) as [[[d2 h2] neq2] lucur2]. nxt.
